@@ -492,6 +492,7 @@ func c06Key(cs c06Case, method, kind, class string) string {
 
 func init() {
 	core.Register("C06", func(c *core.Ctx) {
+		c06SpecLeg(c)
 		bs := func(s string) []int {
 			out := make([]int, len(s))
 			for i := 0; i < len(s); i++ {
